@@ -1,17 +1,23 @@
 """C23 log rotation and flushing never lose or duplicate retained records (engine F).
 
 Fault enumeration: configuration (keep, cycle period, size threshold, flush
-period, reuse, plain / in-process restart) x crash point.  Each execution is
-a child interpreter (``python -m vf.logx child``) running a real Logger with
-two ``always`` logs whose records carry consecutive ids; it reports through
-its stdout pipe every record written (W), every completed Log.flush (F) and
-every Log.cycle begin / end (CB / CE) and kills itself with os._exit(137) at
-the crash point: the start of tick K (both tiers) or the n-th execution of a
-source line of Log.cycle / Log.reopen / Log.flush / Log.close / Logger.log /
-Logger.cycle / ocfn (thorough, sys.monitoring LINE callback).  The parent
-replays the report on a model of the retained files and compares it with the
-files on disk.  With reuse a second child (fresh interpreter, same directory)
-resumes after a normal end or after a kill.
+period, reuse, plain / in-process restart) x crash point.  A workload process
+(forked by the ``vf.logx serve`` launcher, which the worker starts with
+``subprocess.run(timeout=)``) runs a real Logger with two ``always`` logs whose
+records carry consecutive ids and reports through its stdout pipe every record
+written (W), every completed Log.flush (F) and every Log.cycle begin / end
+(CB / CE).  At every crash point -- the start of tick K (both tiers) or the
+n-th execution of a source line of Log.cycle / Log.reopen / Log.flush /
+Log.close / Logger.log / Logger.cycle / ocfn (thorough, sys.monitoring LINE
+callback) -- it forks, the twin process (same memory, same unflushed buffers,
+same descriptors) kills itself with os._exit(137), the survivor checks the
+exit status and copies the log tree: the files a process killed there leaves.
+The parent replays the report up to the crash point on a model of the retained
+files and compares it with that copy.  With reuse a second process (fresh
+fork of the launcher, no ioflo object inherited) resumes in a copy of the
+state left at the end or at a kill.  (One process per crash point that
+re-runs the prefix was the first implementation; process creation costs
+100-600 ms CPU on this machine, the twin costs one fork.)
 """
 import collections
 import json
@@ -24,14 +30,16 @@ from vf.core import scratch_dir
 
 LEVEL = "fault_enumeration"
 RULE = ("configurations: keep {0,1,2,3} x cyclePeriod {P,3P,10P} x fileSize {0,200,2000} x flushPeriod {1,2} x reuse {F,T} "
-        "x schedule {plain, in-process STOP..START restart} (stratified seeded sample per run); crash points: no kill, "
-        "kill at the start of every tick K (1..N-1), and in thorough the 1st/2nd/middle/last execution of every executed "
-        "source line of Log.cycle, Log.reopen, Log.flush, Log.close, Logger.log, Logger.cycle, ocfn; reuse=T additionally "
-        "resumed by a second process; distinct = (configuration, crash point, resumed?); non-trivial = the child really "
-        "died at the crash point (exit 137) after writing at least one record, or ended normally with >=1 flush")
-META = {"engine": "F logging", "technique": "self-killing child at enumerated crash points + file-set model replayed from the child's report; strace for flush->fsync order",
+        "x schedule {plain, in-process STOP..START restart} (224; a seeded sample per run in which every value of every "
+        "dimension occurs); crash points per configuration: normal end, a kill at the start of every tick K (1..N-1), and in "
+        "thorough (3 configurations) the 1st/2nd/middle/last execution of every executed source line of Log.cycle, Log.reopen, "
+        "Log.flush, Log.close, Logger.log, Logger.cycle, ocfn; with reuse the state left at the end and at some kills is "
+        "resumed by a second process; distinct = (configuration, crash point, resumed?); non-trivial = a twin of the workload "
+        "process really died at the crash point (exit status 137 observed) after at least one record had been written, or the "
+        "normal end was reached with >=1 flush")
+META = {"engine": "F logging", "technique": "forked twin killed with os._exit(137) at enumerated crash points + retained-files model replayed from the child's report; strace for flush->fsync order",
         "level_text": "fault enumeration: every tick boundary (and in thorough every executed line of the rotation/flush code) of each sampled configuration is a crash point",
-        "level_note": "process death only (page cache survives); fsync is observed with strace, not tested by power loss; always-rule logs"}
+        "level_note": "process death only (page cache survives); the killed process is a forked twin of the workload process, the files are copied right after its death; fsync is observed with strace, not tested by power loss; always-rule logs only"}
 
 DT = 0.25
 PAD_A = 60
@@ -503,7 +511,7 @@ def judge_state(ctx, g, casekey, kill, report, root, resume, results, count):
 
 
 def run_group(ctx, g, workdir, count=True):
-    res, why = logx.run_batch(g["jobs"], workdir, g["tag"], timeout=300)
+    res, why = logx.run_batch(g["jobs"], workdir, g["tag"], timeout=320)
     if res is None:
         ctx.inconclusive_case("launcher %s failed: %s" % (g["tag"], why))
         return {}
@@ -628,13 +636,13 @@ def worker(ctx, job):
 def run(ctx):
     n = ctx.pick(24, 40)
     allc = all_configs()
-    confs = pick_configs(ctx.subrng("c23-configs"), ctx.pick(12, 64))
+    confs = pick_configs(ctx.subrng("c23-configs"), ctx.pick(12, 36))
     jobs = []
     if not ctx.quick:       # the longest jobs first
-        lconfs = [c for c in confs if c["keep"] >= 1 and c["cycle"] <= 3 * DT][:5]
+        lconfs = [c for c in confs if c["keep"] >= 1 and c["cycle"] <= 3 * DT][:3]
         for conf in lconfs:
-            for part in range(4):
-                jobs.append({"mode": "lines", "conf": conf, "n": 16, "part": part, "parts": 4})
+            for part in range(6):
+                jobs.append({"mode": "lines", "conf": conf, "n": 16, "part": part, "parts": 6})
         for conf in [c for c in confs if c["keep"] >= 1][:2] + [c for c in confs if c["keep"] == 0][:1]:
             jobs.append({"mode": "strace", "conf": conf, "n": 24})
     for ci, conf in enumerate(confs):
@@ -653,8 +661,8 @@ def run(ctx):
     ctx.floor("flushes_observed", len(confs) * 20)
     ctx.floor("records_parsed", nk * 4)
     ctx.floor("kills_with_unflushed_records", nk // 20)
-    ctx.floor("resumes", ctx.pick(4, 40))
-    ctx.floor("resumes_after_kill", ctx.pick(3, 30))
+    ctx.floor("resumes", ctx.pick(4, 30))
+    ctx.floor("resumes_after_kill", ctx.pick(3, 20))
     if not ctx.quick:
         ctx.floor("kills_at_line", 200)
         ctx.floor("kills_mid_rotation", 50)
